@@ -15,7 +15,7 @@ TARGET = dict(
     execs=[dict(name="refcount", harness="harness/C09_refcount.c", repo=[], engine=["engine/sched.c"], san="none", share=0.25,
                 extra=dict(quick=[["enum", "--template", t, "--bound", "64"] for t in _RC_TEMPLATES],
                            thorough=[["enum", "--template", t, "--bound", "64"] for t in _RC_TEMPLATES])),
-           dict(name="ubufshare", harness="harness/C09_ubufshare.c", repo=LIBUPIPE, engine=MEMFIX + ["engine/sched.c"], share=0.75,
+           dict(name="ubufshare", harness="harness/C09_ubufshare.c", repo=LIBUPIPE, engine=MEMFIX + ["engine/sched.c"], fault_malloc=True, share=0.75,
                 extra=dict(quick=[["enum", "--template", t, "--bound", "2"] for t in _UB_TEMPLATES],
                            thorough=[["enum", "--template", t, "--bound", "3"] for t in _UB_TEMPLATES]))],
     quick=dict(cases=120000, budget=30), thorough=dict(cases=700000, budget=400),
